@@ -107,7 +107,10 @@ Out ==
     [] Mode \in {"arr", "arr4", "arr3s"} -> [m |-> "arr", a |-> cs, o |-> WithExpect(ArrayOut(cs))]
     [] Mode = "lit"  -> [m |-> "lit", l |-> cs, o |-> WithExpect([lit |-> LitClass(cs)])]
     [] Mode = "radix" -> [m |-> "radix", bits |-> cs[1], k |-> cs[2],
-                          o |-> WithExpect([one |-> RadixOne(cs[1], cs[2]), max |-> RadixMax(cs[1], cs[2])])]
+                          o |-> WithExpect(IF cs[2] >= RadixTieMinK(cs[1])
+                                           THEN [one |-> RadixOne(cs[1], cs[2]), max |-> RadixMax(cs[1], cs[2]),
+                                                 tie |-> RadixTie(cs[1], cs[2])]
+                                           ELSE [one |-> RadixOne(cs[1], cs[2]), max |-> RadixMax(cs[1], cs[2])])]
 
 Emit == PrintT(<<"CASE", ToJson(Out)>>)
 
@@ -134,6 +137,7 @@ Results ==
     [] Mode \in {"arr", "arr4", "arr3s"} -> { Sum(cs), Avg(cs), MinArray(cs), MaxArray(cs), Sort(cs) }
     [] Mode = "lit"  -> { LitClass(cs) }
     [] Mode = "radix" -> { RadixOne(cs[1], cs[2]), RadixMax(cs[1], cs[2]) }
+                         \cup (IF cs[2] >= RadixTieMinK(cs[1]) THEN { RadixTie(cs[1], cs[2]) } ELSE {})
 Gate ==
   \A r \in Results :
      /\ ResOK(r)
